@@ -72,7 +72,7 @@ def native_build(name, src):
                 return None, 'native build of %s failed: %s' % (s, out.decode()[-800:])
         os.rename(tmp, lib)
     objs = sorted(glob.glob(os.path.join(lib, '*.o')))
-    r = subprocess.run(['g++', '-std=c++14', '-msse4', '-O1', '-g', '-I', os.path.join(repo, 'src'), src] + objs +
+    r = subprocess.run(['g++', '-std=c++14', '-msse4', '-O1', '-g', '-I', os.path.join(repo, 'src'), '-I', os.path.dirname(src), src] + objs +
                        ['-lz', '-llzma', '-o', exe], stdout=subprocess.PIPE, stderr=subprocess.STDOUT)
     if r.returncode != 0:
         return None, 'native replay build failed: ' + r.stdout.decode()[-1500:]
@@ -87,6 +87,8 @@ def family_of(unit_id):
 
 
 def run_native(verif, fam, unit_id, inputs):
+    if 'custom' in fam:
+        return fam['custom'](verif, unit_id, inputs)
     src = os.path.join(verif, 'replay', fam['src'])
     exe, err = native_build(fam['name'], src)
     if exe is None:
@@ -193,3 +195,150 @@ def ts_argv(unit_id, inp):
 
 
 FAMILIES['ts.'] = {'name': 'ts', 'src': 'replay_ts.cpp', 'argv': ts_argv}
+
+
+def dec_argv(unit_id, inp):
+    op = unit_id[len('dec.'):].split('.')[0]
+    g = lambda k, d=0: inp.get(k, d)
+    po, eo = g('po'), g('eo')
+    delivered = g('g_delivered')
+    P0 = None
+    A0 = None
+    for k, v in inp.items():
+        if k.startswith('g_P0__') and k.endswith(op):
+            P0 = v
+        if k.startswith('g_A0__') and k.endswith(op):
+            A0 = v
+    if P0 is None:
+        P0 = g('g_win_start') + po
+    if A0 is None:
+        A0 = (eo - po) + g('in.remaining')
+    # a stream that is not good and not at eof with an empty window: replayed as the never-opened file stream
+    unopened = 1 if ((g('in.failbit') or g('in.badbit')) and not g('in.eofbit') and eo == po) else 0
+    if unopened:
+        P0 = 0
+    rel = lambda w: (w - P0) if w >= P0 else -1
+    extra = g('a_il')
+    return [op, P0, A0, rel(g('g_Wh')), g('g_wh'), rel(g('g_Wd')), g('g_wb'), unopened, extra]
+
+
+FAMILIES['dec.'] = {'name': 'dec', 'src': 'replay_dec.cpp', 'argv': dec_argv}
+
+
+# ------------------------------------------------------------------ item-layer writers: generated native replay
+WRITER_MAIN = r'''
+#include <cstdio>
+#include <cstdlib>
+#include <string>
+#include <vector>
+#include <unistd.h>
+#include "cdns.h"
+#include "cbor_ref.h"
+using namespace CDNS;
+template<typename O, typename V> static void setopt(boost::optional<O>& o, V v) { o = static_cast<O>(v); }
+template<typename O, typename V> static void setval(O& o, V v) { o = static_cast<O>(v); }
+static std::string mkstr(unsigned long long len, unsigned long long id) { if (len > 300) len = 300; return std::string((size_t)len, (char)('a' + id %% 26)); }
+int main() {
+    %(decl)s x;
+%(assign)s
+    char tmpl[] = "/tmp/cdns-replay-XXXXXX"; int fd = mkstemp(tmpl); if (fd < 0) return 2; unlink(tmpl); int fd2 = dup(fd);
+    size_t ret = 0;
+    { CdnsEncoder enc(fd, CborOutputCompression::NO_COMPRESSION); %(call)s }
+    Bytes got; lseek(fd2, 0, SEEK_SET); unsigned char buf[65536]; ssize_t k; while ((k = read(fd2, buf, sizeof buf)) > 0) got.insert(got.end(), buf, buf + k);
+    size_t end = 0; int st = got.empty() ? RF_END : ref_skip(got, 0, end);
+    bool one_item = st == RF_OK && end == got.size();
+    bool count_ok = ret == got.size();
+    // top-level map keys
+    std::string keys; bool keys_ok = true;
+    long long want[] = { %(want)s };
+    size_t nwant = sizeof(want) / sizeof(want[0]) - 1;
+    if (one_item && (got[0] & 0xe0) == 0xa0) {
+        unsigned mt, ai; unsigned long long arg; size_t p; int s2; ref_head(got, 0, mt, ai, arg, p, s2);
+        std::vector<long long> seen;
+        for (unsigned long long i = 0; i < arg; i++) { unsigned m2, a2; unsigned long long g2; size_t n2; ref_head(got, p, m2, a2, g2, n2, s2);
+            seen.push_back(m2 == 0x20 ? -1 - (long long)g2 : (long long)g2); size_t e; ref_skip(got, n2, e); p = e; }
+        for (size_t i = 0; i < seen.size(); i++) keys += std::to_string(seen[i]) + " ";
+        if (%(checkkeys)d) { keys_ok = seen.size() == nwant; for (size_t i = 0; keys_ok && i < nwant; i++) { bool f = false; for (auto s : seen) f |= s == want[i]; keys_ok = f; } }
+    }
+    bool ok = %(expect_nothing)s ? (got.empty() && ret == 0) : (one_item && count_ok && keys_ok);
+    printf("REPLAY: %%s %(decl)s::write returned=%%zu output_len=%%zu one_wellformed_item=%%d keys=[%%s] first_bytes=", ok ? "OK" : "MISMATCH", ret, got.size(), (int)one_item, keys.c_str());
+    for (size_t i = 0; i < got.size() && i < 16; i++) printf("%%02x", got[i]);
+    printf("\n");
+    return ok ? 0 : 1;
+}
+'''
+
+
+def writer_replay(verif, unit_id, inp):
+    """build + run a native program that constructs the counterexample's structure and serialises it with the real library"""
+    sys_path = os.path.join(verif, 'spec')
+    import sys
+    if sys_path not in sys.path:
+        sys.path.insert(0, sys_path)
+    import rfc8618_maps as RFC
+    rec = unit_id.split('.', 1)[1]
+    if rec not in RFC.MAPS:
+        return {'ran': False, 'error': 'no native replay generator for ' + rec}
+    g = lambda k, d=0: inp.get(k, d)
+    lines = []
+    want = []
+    anyp = False
+    for fname, key, kind, mand in RFC.MAPS[rec]:
+        base = 'obj.' + fname
+        is_opt = (base + '.has') in inp or not mand and (base + '.val') in inp
+        has = g(base + '.has', 1 if mand else 0) if not kind.startswith('array:') or (base + '.has') in inp else 1
+        vb = base + ('.val' if (base + '.has') in inp else '')
+        if kind.startswith('array:'):
+            n = min(g(vb + '.n', 0), 12)
+            ek = kind[6:]
+            if n == 0 and not mand:
+                continue
+            for i in range(n):
+                if ek == 'uint':
+                    lines.append('    x.%s.push_back(static_cast<decltype(x.%s)::value_type>(%dULL));' % (fname, fname, g(vb + '.wv', 0) & 0xffff))
+                elif ek in ('tstr', 'bstr'):
+                    lines.append('    x.%s.push_back(mkstr(%dULL, %dULL));' % (fname, g(vb + '.wv.len', 1), g(vb + '.wv.id', 0)))
+                else:
+                    lines.append('    x.%s.emplace_back();' % fname)
+            want.append(key)
+            anyp = True
+            continue
+        if not has:
+            continue
+        anyp = True
+        want.append(key)
+        setter = 'setopt' if (base + '.has') in inp else 'setval'
+        if kind in ('uint', 'int', 'bool'):
+            v = g(vb, 0)
+            lit = ('%dULL' % v) if v >= 0 else ('(%dLL)' % v)
+            lines.append('    %s(x.%s, %s);' % (setter, fname, lit))
+        elif kind in ('tstr', 'bstr'):
+            lines.append('    x.%s = mkstr(%dULL, %dULL);' % (fname, g(vb + '.len', 1), g(vb + '.id', 0)))
+        elif kind in ('offset', 'time'):
+            lines.append('    x.%s = Timestamp(%dULL, %dULL);' % (fname, g(vb + '.m_secs', 0), g(vb + '.m_ticks', 0)))
+        elif kind.startswith('map:'):
+            sub = kind[4:]
+            if (base + '.has') in inp:
+                lines.append('    x.%s = %s();' % (fname, sub))
+    timed = rec in ('QueryResponse', 'MalformedMessage')
+    call = 'Timestamp earliest(0, 0); uint64_t tps = 1000000; ret = x.write(enc, earliest, tps);' if timed else 'ret = x.write(enc);'
+    expect_nothing = 'true' if (timed and not anyp) else 'false'
+    src = WRITER_MAIN % {'decl': rec, 'assign': '\n'.join(lines), 'call': call, 'want': ', '.join(str(k) for k in want) + (', ' if want else '') + '0',
+                         'checkkeys': 1, 'expect_nothing': expect_nothing}
+    cache = astload.CACHE
+    os.makedirs(cache, exist_ok=True)
+    path = os.path.join(cache, 'replay_w_%s.cpp' % rec)
+    open(path, 'w').write(src)
+    shutil.copy(os.path.join(verif, 'replay', 'cbor_ref.h'), os.path.join(cache, 'cbor_ref.h'))
+    exe, err = native_build('w_' + rec, path)
+    if exe is None:
+        return {'ran': False, 'error': err}
+    try:
+        p = subprocess.run([exe], stdout=subprocess.PIPE, stderr=subprocess.PIPE, timeout=60)
+    except subprocess.TimeoutExpired:
+        return {'ran': True, 'misbehaves': True, 'stdout': 'timeout'}
+    return {'ran': True, 'argv': ['generated program ' + path], 'exit': p.returncode, 'stdout': p.stdout.decode(errors='replace')[-1500:],
+            'stderr': p.stderr.decode(errors='replace')[-500:], 'misbehaves': p.returncode != 0, 'source': src}
+
+
+FAMILIES['w.'] = {'name': 'w', 'custom': writer_replay}
